@@ -434,7 +434,7 @@ func main() {
 		}
 	} else if libMode && fault != "" {
 		switch fault {
-		case "trunc_outs", "no_outs", "null_outs", "missing_key", "wrong_type", "bad_stage_defs", "exit_after_outs":
+		case "trunc_outs", "no_outs", "null_outs", "missing_key", "wrong_type", "bad_stage_defs", "bad_resource_type", "exit_after_outs":
 			fault = "" // the adapter, not the stage code, writes the outputs
 		}
 	}
@@ -626,6 +626,18 @@ func main() {
 		switch fault {
 		case "bad_stage_defs":
 			outBytes = []byte(`{"chunks": 5, "join": {}}`)
+		case "bad_resource_type":
+			// a reserved resource key of the wrong JSON type, followed by a valid one
+			// (in the first chunk, or in the join definition if there are no chunks)
+			bad := map[string]interface{}{"__threads": "two", "__mem_gb": 1, "__vmem_gb": 2}
+			if len(chunks) > 0 {
+				for k, v := range bad {
+					chunks[0][k] = v
+				}
+			} else {
+				sd["join"] = bad
+			}
+			outBytes, _ = json.MarshalIndent(sd, "", " ")
 		case "trunc_outs":
 			outBytes = outBytes[:len(outBytes)/2]
 		case "no_outs":
